@@ -175,7 +175,7 @@ def driver_run(name, tier, seed, puf=True, keep_trace=False, release=False):
     vf.write_ops(opsf, ops)
     light = name in LIGHT_DRIVERS
     info = vf.run_harness(binary, opsf, trf, timeout_ms=180000 if light else 20000,
-                          post="export1,common,json" if light else "export,common,json")
+                          post="export1,common,json,light" if light else "export,common,json")
     env_extra = {} if puf else {"PUF": "0"}
     if light:
         env_extra["LIGHT"] = "1"
